@@ -40,9 +40,9 @@ func c11NewEnv(t *testing.T) *c11Env {
 		t.Fatalf("sync fn: %v", err)
 	}
 	e := &c11Env{t: t, ctx: ctx, db: db, col: col, rawC: col.dataStore, rawM: db.MetadataStore}
-	e.fs = &vFaultStore{DataStore: col.dataStore, readFaults: true}
+	e.fs = &vFaultStore{DataStore: col.dataStore, readFaults: true, onlyGoroutine: vGoID()}
 	col.dataStore = e.fs
-	e.ms = &vFaultStore{DataStore: db.MetadataStore, readFaults: true}
+	e.ms = &vFaultStore{DataStore: db.MetadataStore, readFaults: true, onlyGoroutine: vGoID()}
 	db.MetadataStore = e.ms
 	db.sequences.datastore = e.ms
 	db.sequences.releaseSequenceWait = time.Hour
@@ -350,28 +350,34 @@ func TestVerifC11(t *testing.T) {
 	defer rec.Finish()
 	e := c11NewEnv(t)
 	defer e.db.Close(e.ctx)
-	// faults are addressed by (operation signature, occurrence) so that incidental extra reads do not shift them
-	arm := func(sig string, occ int, mode string, fired *bool) func(op, key string) error {
-		seen := 0
+	// faults are addressed by (operation signature, occurrence) so that incidental extra reads do not shift them;
+	// several targets = several faults in one request, each fires once
+	type c11Target struct {
+		sig   string
+		occ   int
+		fired bool
+	}
+	arm := func(targets []*c11Target, mode string) func(op, key string) error {
+		seen := map[string]int{}
 		return func(op, key string) error {
 			if strings.Contains(key, "_sync:seq") {
 				return nil // allocator batch reservations depend on history; the allocator is C07's subject
 			}
-			if c11OpSig(op+" "+key) != sig || *fired {
-				return nil
+			sig := c11OpSig(op + " " + key)
+			seen[sig]++
+			for _, tg := range targets {
+				if tg.sig == sig && tg.occ == seen[sig] && !tg.fired {
+					tg.fired = true
+					switch mode {
+					case "timeout":
+						return base.ErrTimeout
+					case "cas":
+						return sgbucket.CasMismatchErr{Expected: 1, Actual: 2}
+					}
+					return errVInjected
+				}
 			}
-			seen++
-			if seen != occ {
-				return nil
-			}
-			*fired = true
-			switch mode {
-			case "timeout":
-				return base.ErrTimeout
-			case "cas":
-				return sgbucket.CasMismatchErr{Expected: 1, Actual: 2}
-			}
-			return errVInjected
+			return nil
 		}
 	}
 	setFail := func(f func(op, key string) error) {
@@ -457,78 +463,106 @@ func TestVerifC11(t *testing.T) {
 		rec.Size(fmt.Sprintf("%s:trace=%d", rq.kind, len(trace)))
 		rec.Sample(map[string]any{"kind": rq.kind, "trace": trace})
 
-		// ---- fault every operation ----
+		occOf := func(k int) int {
+			occ := 0
+			for j := 0; j <= k; j++ {
+				if c11OpSig(trace[j]) == c11OpSig(trace[k]) {
+					occ++
+				}
+			}
+			return occ
+		}
+		runFaulted := func(ks []int, mode, stream string) {
+			e.n++
+			id := fmt.Sprintf("c11%s%d", rq.kind, e.n)
+			rq.setup(e, id)
+			keys := rq.primary(e, id)
+			pre := e.rawState(keys)
+			var targets []*c11Target
+			for _, k := range ks {
+				targets = append(targets, &c11Target{sig: c11OpSig(trace[k]), occ: occOf(k)})
+			}
+			base1 := e.db.sequences.last
+			e.ms.takeReleased()
+			setFail(arm(targets, mode))
+			err := rq.run(e, id)
+			setFail(nil)
+			post := e.rawState(keys)
+			unchanged := true
+			var changedKey string
+			for kk, v := range pre {
+				if post[kk] != v {
+					unchanged = false
+					changedKey = kk
+				}
+			}
+			visible, det := rq.done(e, id)
+			result := "ok"
+			if err != nil {
+				result = "err"
+			}
+			state := "other"
+			switch {
+			case unchanged && !visible:
+				state = "unchanged"
+			case visible:
+				state = "committed"
+			}
+			// only the faults that actually fired are part of the case
+			var firedIdx []string
+			var firedOps []string
+			anyFired := false
+			for i, tg := range targets {
+				if tg.fired {
+					anyFired = true
+					firedIdx = append(firedIdx, fmt.Sprintf("%d%%nat", remap[ks[i]]))
+					firedOps = append(firedOps, trace[ks[i]])
+				}
+			}
+			in := map[string]any{"kind": rq.kind, "op_index": ks, "op": firedOps, "mode": mode, "result": result, "state": state, "error": fmt.Sprint(err)}
+			sigOps := ""
+			for _, o := range firedOps {
+				sigOps += ":" + c11OpSig(o)
+			}
+			if anyFired && err != nil && !unchanged && mode != "timeout" {
+				rec.Fail("fault_leaves_state_unchanged", "partial-effect:"+rq.kind+sigOps, in, "request failed but primary state changed ("+changedKey+")")
+			}
+			if anyFired && err == nil && expectSuccess && !visible {
+				rec.Fail("reported_success_durable", "swallowed-failure:"+rq.kind+sigOps, in, "request reported success but its effect is not visible: "+det)
+			}
+			if !expectSuccess && err == nil {
+				rec.Fail("rejected_write_succeeded", "rejected-write-succeeded", in, "a rejected write returned success")
+			}
+			if mode != "timeout" && unchanged {
+				c11Account(rec, e, rq.kind, strings.Join(firedOps, "+")+"/"+mode, ks[0], base1, err)
+			} else {
+				e.ms.takeReleased()
+			}
+			cls := "[" + strings.Join(classes, "; ") + "]"
+			coq := fmt.Sprintf("CFault %s [%s] %s %s %s %s", cls, strings.Join(firedIdx, "; "), cqBool(mode == "cas"), cqBool(expectSuccess), map[string]string{"ok": "ROk", "err": "RErr"}[result],
+				map[string]string{"unchanged": "SUnchanged", "committed": "SCommitted", "other": "SOther"}[state])
+			rec.Case(stream, rq.kind, coq, in, anyFired)
+			rec.Err(rq.kind + ":" + mode + ":" + result + "/" + state)
+		}
+		// ---- every single fault ----
 		for k := range trace {
 			ms := modes
 			if strings.HasPrefix(trace[k], "WriteCas ") {
 				ms = []string{"error", "timeout", "cas"}
 			}
 			for _, mode := range ms {
-				e.n++
-				id := fmt.Sprintf("c11%s%d", rq.kind, e.n)
-				rq.setup(e, id)
-				keys := rq.primary(e, id)
-				pre := e.rawState(keys)
-				fired := false
-				base1 := e.db.sequences.last
-				e.ms.takeReleased()
-				occ := 0
-				for j := 0; j <= k; j++ {
-					if c11OpSig(trace[j]) == c11OpSig(trace[k]) {
-						occ++
-					}
+				runFaulted([]int{k}, mode, "single_fault")
+			}
+		}
+		// ---- pairs of faults: all pairs in the thorough tier, the pairs that start with a tolerated operation
+		// (read / best effort) or lie after the commit in the quick tier ----
+		for i := range trace {
+			for j := i + 1; j < len(trace); j++ {
+				ci, cj := classes[remap[i]], classes[remap[j]]
+				interesting := ci == "Read" || ci == "Opt" || (ci != "Commit" && cj != "Commit" && remap[i] > 0 && classes[remap[i]-1] == "Commit")
+				if vThorough() || interesting {
+					runFaulted([]int{i, j}, "error", "fault_pair")
 				}
-				setFail(arm(c11OpSig(trace[k]), occ, mode, &fired))
-				err := rq.run(e, id)
-				setFail(nil)
-				post := e.rawState(keys)
-				unchanged := true
-				var changedKey string
-				for kk, v := range pre {
-					if post[kk] != v {
-						unchanged = false
-						changedKey = kk
-					}
-				}
-				visible, det := rq.done(e, id)
-				result := "ok"
-				if err != nil {
-					result = "err"
-				}
-				state := "other"
-				switch {
-				case unchanged && !visible:
-					state = "unchanged"
-				case visible:
-					state = "committed"
-				}
-				if !fired {
-					state = state + "-nofault" // the run issued fewer operations than the clean trace
-				}
-				in := map[string]any{"kind": rq.kind, "op_index": k, "op": trace[k], "mode": mode, "result": result, "state": state, "error": fmt.Sprint(err)}
-				// monitors
-				if fired && err != nil && !unchanged && mode != "timeout" {
-					rec.Fail("fault_leaves_state_unchanged", "partial-effect:"+rq.kind+":"+c11OpSig(trace[k]), in,
-						"request failed but primary state changed ("+changedKey+")")
-				}
-				if fired && err == nil && expectSuccess && !visible {
-					rec.Fail("reported_success_durable", "swallowed-failure:"+rq.kind+":"+c11OpSig(trace[k]), in,
-						"request reported success but its effect is not visible: "+det)
-				}
-				if !expectSuccess && err == nil {
-					rec.Fail("rejected_write_succeeded", "rejected-write-succeeded", in, "a rejected write returned success")
-				}
-				if mode != "timeout" && unchanged {
-					c11Account(rec, e, rq.kind, trace[k]+"/"+mode, k, base1, err)
-				} else {
-					e.ms.takeReleased()
-				}
-				cls := "[" + strings.Join(classes, "; ") + "]"
-				coq := fmt.Sprintf("CFault %s %d %s %s %s %s", cls, remap[k], cqBool(mode == "cas"), cqBool(expectSuccess), map[string]string{"ok": "ROk", "err": "RErr"}[result],
-					map[string]string{"unchanged": "SUnchanged", "committed": "SCommitted", "other": "SOther", "unchanged-nofault": "SUnchanged", "committed-nofault": "SCommitted", "other-nofault": "SOther"}[state])
-				_ = commitIdx
-				rec.Case("fault_enumeration", rq.kind, coq, in, fired)
-				rec.Err(rq.kind + ":" + mode + ":" + result + "/" + state)
 			}
 		}
 	}
